@@ -28,6 +28,7 @@ META = {
         "which listen() has not returned is legal only while a never-ending task runs and W is None. "
         "distinct_nontrivial = distinct terminal per-message logs."
         " Fault-overlap family (mc/fault_overlap.py): message X suffers one fault out of {pre_execute/post_execute/post_save/on_error hook, sync or async ack, result backend} x {RuntimeError, CancelledError, TimeoutError}, backend failing once, body raise/CancelledError/timeout/no-result, malformed/unknown message, broker stream error, while the healthy message Y has suspension points before, inside and after its function and the stop request may arrive at any point; for (A,N,W) configurations so that X's processing can end, in whatever way, during the drain while Y is still running; all oracles apply unchanged."
+        " Three (thorough: four) accepted tasks still running when the drain starts, finishing at distinct clock ticks inside the wait_tasks_timeout window."
     ),
     "assumptions": [
         "asyncio semantics as implemented by BaseEventLoop; timers fire exactly at their deadline on the virtual clock; untimed events happen at timer deadlines or at the harness clock ticks (0.15 s steps) of the tick scenarios",
@@ -206,6 +207,12 @@ def scenarios(tier: str) -> List[Dict[str, Any]]:
                 # clock ticks between the code's own timers: completions can fall inside the drain window
                 out.append({"A": a, "P": p, "N": n, "W": w, "stream": stream, "stop": True, "msgs": _msgs(w_), "level": 0,
                             "ticks": [150_000, 450_000, 600_000, 750_000, 900_000]})
+    # three accepted tasks still running when the drain starts, finishing at distinct instants inside the
+    # wait_tasks_timeout window (clock ticks between the code's own timers)
+    for w_ in (("sss",) if tier == "quick" else ("ssn", "sss", "sssn", "ssss")):
+        for w in ((0.5,) if tier == "quick" else (0.3, 0.5)):
+            out.append({"A": None, "P": 0, "N": None, "W": w, "stream": "infinite", "stop": True, "msgs": _msgs(w_), "level": 0,
+                        "ticks": [450_000, 600_000, 750_000] if tier == "quick" else [150_000, 450_000, 600_000, 750_000, 900_000]})
     for w_ in l1_words:
         for (a, p, n, w) in l1_cfg:
             out.append({"A": a, "P": p, "N": n, "W": w, "stream": "infinite", "stop": True, "msgs": _msgs(w_), "level": 1})
